@@ -578,6 +578,22 @@ class LoopsEngine(Engine):
                 op = {"op": "write", "p": rng.randrange(max(1, n_w)), "n": rng.randint(1, 3)}
             op["at"] = at
             ops.append(op)
+            if op["op"] in ("remove_watch", "remove_idle") and rng.random() < 0.4:
+                # the same callback registers the descriptor / idle slot again straight away (a new registration
+                # with a new callback: the one it replaces must not run any more)
+                again = {"op": "watch", "p": op["p"]} if op["op"] == "remove_watch" else {"op": "enter_idle", "id": op["id"]}
+                again["at"] = list(at)
+                ops.append(again)
+        if n_w >= 2 and rng.random() < 0.15:
+            # two descriptors become readable at the same instant (one readiness batch) and whichever callback is
+            # served first replaces the other's registration
+            pa, pb = rng.sample(range(n_w), 2)
+            t = rng.choice(GRID)
+            arrivals.append({"t": t, "p": pa, "n": 1})
+            arrivals.append({"t": t, "p": pb, "n": 1})
+            for me, other in ((pa, pb), (pb, pa)) if rng.random() < 0.6 else ((pa, pb),):
+                ops.append({"at": ["watch", me, 0], "op": "remove_watch", "p": other})
+                ops.append({"at": ["watch", me, 0], "op": "watch", "p": other})
         if rng.random() < 0.2:
             ops.append({"at": "pre", "op": "remove_alarm", "id": rng.randrange(n_al)})
             if rng.random() < 0.5:
